@@ -2,7 +2,8 @@
    the regenerated Gen/AllocSites.v: a call site of wbxml_malloc / wbxml_realloc / wbxml_strdup or of a _create /
    _duplicate wrapper that appears in a function not listed here, or a changed number of sites in a listed
    function, is an unproved obligation (C16_alloc_sites_covered).
-     modelled_sites   : functions transcribed at the ownership level in Model/Alloc.v (theorems in Proofs/AllocProofs.v)
+     modelled_sites   : functions transcribed at the ownership level in Model/Alloc.v and Model/AllocParserTree.v
+                        (theorems in Proofs/AllocProofs.v, AllocInduction.v, AllocParserTreeProofs.v)
      enumerated_sites : everything else: covered by exhaustive single-fault ENUMERATION only (harness/c16_harness.c) —
                         exploration, not a theorem.  (parse_attr_start: its LITERAL branch is also modelled; wbxml_fill_header: its public-id / string-table part.) *)
 From Coq Require Import List String NArith Bool.
@@ -34,14 +35,24 @@ Definition modelled_sites : list (string * string * N) := [
   ("wbxml_encoder.c", "wbxml_encode_tag_literal", 2);
   ("wbxml_encoder.c", "wbxml_encode_attr_start_literal", 2);
   ("wbxml_encoder.c", "wbxml_fill_header", 2);
-  ("wbxml_encoder.c", "wbxml_strtbl_element_create", 1)
+  ("wbxml_encoder.c", "wbxml_strtbl_element_create", 1);
+  ("wbxml_buffers.c", "wbxml_buffer_sta_create_real", 1);
+  ("wbxml_parser.c", "get_strtbl_reference", 1);
+  ("wbxml_parser.c", "parse_attr_start", 3);
+  ("wbxml_parser.c", "parse_attr_value", 1);
+  ("wbxml_parser.c", "parse_attribute", 3);
+  ("wbxml_parser.c", "parse_opaque", 1);
+  ("wbxml_parser.c", "parse_stag", 1);
+  ("wbxml_parser.c", "parse_tag", 2);
+  ("wbxml_tree.c", "wbxml_tree_add_text", 2);
+  ("wbxml_tree.c", "wbxml_tree_add_tree", 1);
+  ("wbxml_tree.c", "wbxml_tree_node_create", 1)
 ].
 
 Definition enumerated_sites : list (string * string * N) := [
   ("wbxml_base64.c", "wbxml_base64_decode", 1);
   ("wbxml_base64.c", "wbxml_base64_encode", 1);
   ("wbxml_buffers.c", "wbxml_buffer_split_words_real", 2);
-  ("wbxml_buffers.c", "wbxml_buffer_sta_create_real", 1);
   ("wbxml_charset.c", "wbxml_charset_conv", 1);
   ("wbxml_conv.c", "wbxml_conv_wbxml2xml_create", 1);
   ("wbxml_conv.c", "wbxml_conv_wbxml2xml_withlen", 1);
@@ -64,29 +75,19 @@ Definition enumerated_sites : list (string * string * N) := [
   ("wbxml_encoder.c", "xml_encode_attr", 1);
   ("wbxml_encoder.c", "xml_encode_text", 3);
   ("wbxml_encoder.c", "xml_encode_tree", 1);
-  ("wbxml_parser.c", "get_strtbl_reference", 1);
-  ("wbxml_parser.c", "parse_attr_start", 3);
-  ("wbxml_parser.c", "parse_attr_value", 1);
-  ("wbxml_parser.c", "parse_attribute", 3);
   ("wbxml_parser.c", "parse_entity", 2);
   ("wbxml_parser.c", "parse_extension", 4);
-  ("wbxml_parser.c", "parse_opaque", 1);
   ("wbxml_parser.c", "parse_pi", 2);
-  ("wbxml_parser.c", "parse_stag", 1);
   ("wbxml_parser.c", "parse_strtbl", 1);
-  ("wbxml_parser.c", "parse_tag", 2);
   ("wbxml_parser.c", "wbxml_parser_create", 1);
   ("wbxml_parser.c", "wbxml_parser_parse", 1);
   ("wbxml_tree.c", "wbxml_tree_add_cdata", 1);
   ("wbxml_tree.c", "wbxml_tree_add_elt", 2);
-  ("wbxml_tree.c", "wbxml_tree_add_text", 2);
-  ("wbxml_tree.c", "wbxml_tree_add_tree", 1);
   ("wbxml_tree.c", "wbxml_tree_add_xml_elt", 3);
   ("wbxml_tree.c", "wbxml_tree_create", 1);
   ("wbxml_tree.c", "wbxml_tree_from_wbxml", 2);
   ("wbxml_tree.c", "wbxml_tree_from_xml", 1);
   ("wbxml_tree.c", "wbxml_tree_node_add_xml_attr", 5);
-  ("wbxml_tree.c", "wbxml_tree_node_create", 1);
   ("wbxml_tree.c", "wbxml_tree_node_create_cdata", 2);
   ("wbxml_tree.c", "wbxml_tree_node_create_text", 2);
   ("wbxml_tree.c", "wbxml_tree_node_create_tree", 2);
